@@ -24,6 +24,7 @@ func init() {
 			{ID: "C18-R3", Title: "resume at the saved ip; reload carries every global over", Floor: 2, Run: c18r3},
 			{ID: "C18-R4", Title: "run-state reset on entry only (never on the way out of a failed piece)", Floor: 2, Run: resetDiscipline},
 			{ID: "C18-R6", Title: "every piece starts with an empty operand stack", Floor: 1, Run: runStartsEmpty},
+			{ID: "C18-R7", Title: "Code.Root returns a parentless code object", Floor: 1, Run: rootHasNoParent},
 			{ID: "C18-R5", Title: "VM-level caches are filled only after the fallible work succeeded (shared with C07-R5)", Floor: 1, Run: c07r5},
 		},
 	})
@@ -239,6 +240,7 @@ func c18r3(c *core.Ctx) {
 		"reloading the grown main code copies the whole globals slice of the old code object into the new one, unconditionally (a per-slot condition lets freshly bound host globals overwrite values the earlier pieces assigned)")
 	// the functions loaded by earlier pieces share the globals array: the reload re-points them
 	rebinds := false
+	unguarded := ""
 	codeT := core.MustType(vmp, "code")
 	gf := fieldByName(codeT, "Globals")
 	ast.Inspect(fd.Body, func(n ast.Node) bool {
@@ -246,18 +248,56 @@ func c18r3(c *core.Ctx) {
 		if !ok || fieldOf(info, rs.X) != loaded {
 			return true
 		}
-		ast.Inspect(rs.Body, func(k ast.Node) bool {
-			if as, ok := k.(*ast.AssignStmt); ok {
-				for _, l := range as.Lhs {
-					if gf != nil && fieldOf(info, l) == gf {
-						rebinds = true
+		walkStack(rs.Body, func(k ast.Node, stack []ast.Node) bool {
+			as, ok := k.(*ast.AssignStmt)
+			if !ok {
+				return true
+			}
+			for _, l := range as.Lhs {
+				if gf == nil || fieldOf(info, l) != gf {
+					continue
+				}
+				rebinds = true
+				// guarded by a test that the code object's root is the reloaded code
+				guarded := false
+				for _, anc := range stack {
+					ifs, ok := anc.(*ast.IfStmt)
+					if !ok {
+						continue
 					}
+					ast.Inspect(ifs.Cond, func(c2 ast.Node) bool {
+						be, ok := c2.(*ast.BinaryExpr)
+						if !ok || be.Op != token.EQL {
+							return true
+						}
+						isRootCall := func(e ast.Expr) bool {
+							ce, ok := ast.Unparen(e).(*ast.CallExpr)
+							if !ok {
+								return false
+							}
+							cal := calleeOf(info, ce)
+							return cal != nil && cal.Name() == "Root"
+						}
+						isParam := func(e ast.Expr) bool {
+							o := objOf(info, e)
+							return o != nil && enclosingParams(info, []ast.Node{fd})[o]
+						}
+						if (isRootCall(be.X) && isParam(be.Y)) || (isRootCall(be.Y) && isParam(be.X)) {
+							guarded = true
+						}
+						return true
+					})
+				}
+				if !guarded {
+					unguarded = posOf(p, as)
 				}
 			}
 			return true
 		})
 		return true
 	})
+	c.Check(unguarded == "", "vm.VirtualMachine."+reload.Name()+"|rebinds-only-own-functions", posOf(p, fd),
+		"only code objects whose Root() is the reloaded main code are given its globals array (functions of imported modules keep their module's array)"+ifs(unguarded != "", ": the store at "+unguarded+" is not under such a test"))
 	c.Check(rebinds, "vm.VirtualMachine."+reload.Name()+"|rebinds-loaded-functions", posOf(p, fd),
 		"the reload gives the main code a new globals array; the code objects of functions loaded by earlier pieces (which alias the old array) are re-pointed to it — otherwise a function defined in an earlier piece keeps reading and writing the globals as they were before the reload")
 	// resume point: the run function passes vm.ip (not 0) as start when state is kept
